@@ -212,6 +212,7 @@ func vfGenC08(rt *rapid.T) vfC08Case {
 		n = 1
 	}
 	var total int64
+	midresume := false
 	for i := 0; i < n; i++ {
 		var f vfC08File
 		f.Name = fmt.Sprintf("f%d-%s", i, vfGenFsName(rt, "name"))
@@ -233,10 +234,23 @@ func vfGenC08(rt *rapid.T) vfC08Case {
 				f.Diverge = rapid.Int64Range(0, f.PrevSize).Draw(rt, "div")
 			}
 		}
+		if !large && rapid.IntRange(0, 9).Draw(rt, "midresume") == 0 {
+			// a resumed transfer whose unsent rest is a few hundred KiB (the compression probe looks at up to three 128 KiB samples)
+			f.Kind = rapid.SampledFrom([]int{vfKindText, vfKindNoise, vfKindHeadCompressible}).Draw(rt, "mkind")
+			rest := rapid.SampledFrom([]int64{100 << 10, 128 << 10, 129 << 10, 200 << 10, 256 << 10, 300 << 10, 383 << 10, 384 << 10, 500 << 10}).Draw(rt, "mrest")
+			f.PrevSize = rapid.SampledFrom([]int64{1, 1000, 100 << 10, 128 << 10}).Draw(rt, "mprev")
+			f.SrcSize = f.PrevSize + rest
+			f.Relation = rapid.SampledFrom([]string{"prefix", "prefix", "diverge"}).Draw(rt, "mrel")
+			f.Diverge = f.PrevSize
+			midresume = true
+		}
 		total += f.SrcSize
 		cs.Files = append(cs.Files, f)
 	}
 	cs.Cfg = vfGenPairCfg(rt, total)
+	if midresume {
+		cs.Cfg.Compress = 0
+	}
 	cs.Cfg.Overwrite = true
 	cs.Cfg.Directory = rapid.Bool().Draw(rt, "dirmode")
 	cs.Cfg.Protocol = rapid.SampledFrom([]int{2, 3, 4, 3, 4}).Draw(rt, "proto")
